@@ -11,9 +11,10 @@ import (
 )
 
 type varInfo struct {
-	obj  types.Object
-	name string
-	ty   gtype
+	obj   types.Object
+	name  string
+	ty    gtype
+	place *placeInfo // [seq] ty.k == kPlace
 }
 
 // env: the variables in scope (declaration order) and the slice variables that may share their backing array with
@@ -62,11 +63,13 @@ func (e *env) unshare(key string) *env {
 
 // fctx: per-function translation state.
 type fctx struct {
-	t     *Translator
-	fi    *funcInfo
-	used  map[string]bool
-	ntemp int
-	inRet int // [BitsCode] > 0 while the operands of a `return` are translated (struct literals may then hold named slices)
+	t         *Translator
+	fi        *funcInfo
+	used      map[string]bool
+	ntemp     int
+	tailParam string              // [seq] the parameter standing for a timed tail
+	nilErr    map[*ast.Ident]bool // [ext:T20] occurrences of nil that stand for the nil error
+	inRet     int                 // [BitsCode] > 0 while the operands of a `return` are translated (struct literals may then hold named slices)
 }
 
 func (c *fctx) fresh(prefix string) string {
@@ -85,7 +88,7 @@ func (c *fctx) declare(e *env, o types.Object, ty gtype) (*env, string) {
 		name = fmt.Sprintf("%s_%d", base, i)
 	}
 	c.used[name] = true
-	return e.with(varInfo{o, name, ty}), name
+	return e.with(varInfo{obj: o, name: name, ty: ty}), name
 }
 
 // ---- aliasing keys ------------------------------------------------------------------------------
@@ -125,6 +128,12 @@ func (c *fctx) aliasSource(e ast.Expr, en *env) (string, bool) {
 		}
 	case *ast.SliceExpr:
 		return c.aliasSource(x.X, en)
+	case *ast.IndexExpr: // [ext:T08] an element of a [][]byte shares with the table
+		if tv, ok := c.t.info.Types[x.X]; ok && tv.Type != nil {
+			if g, ok := c.t.type08(tv.Type, x); ok && g.nest {
+				return c.aliasSource(x.X, en)
+			}
+		}
 	case *ast.CallExpr:
 		if id, ok := ast.Unparen(x.Fun).(*ast.Ident); ok {
 			if b, ok := c.t.info.Uses[id].(*types.Builtin); ok {
@@ -172,6 +181,8 @@ func (c *fctx) constTerm(e ast.Expr) (string, bool) {
 			return "true", true
 		}
 		return "false", true
+	case constant.String: // [ext:T20]
+		return c.strConst20(e, constant.StringVal(tv.Value))
 	}
 	return "", false
 }
@@ -238,7 +249,12 @@ func (c *fctx) pure(e ast.Expr) bool {
 		return true
 	case *ast.CallExpr:
 		b := c.builtin(x)
-		if b == "len" || b == "cap" || b == "min" || b == "max" || b == "append" || c.isConversion(x) {
+		pureFn := false
+		if c.t.funcValueCall(x) != nil { // a function value without slice parameters is a total pure function
+			g := c.t.exprType(x.Fun)
+			pureFn = g.k == kFunc && g.fn.pure && c.pure(x.Fun)
+		}
+		if b == "len" || b == "cap" || b == "min" || b == "max" || b == "append" || c.isConversion(x) || pureFn {
 			for _, a := range x.Args {
 				if !c.pure(a) {
 					return false
@@ -255,6 +271,9 @@ func (c *fctx) pure(e ast.Expr) bool {
 func (c *fctx) wrapIf(g gtype, term string) string {
 	if g.k == kUint {
 		return fmt.Sprintf("(wrap %d %s)", g.bits, term)
+	}
+	if g.k == kInt && g.bits > 0 { // [ext:T20] intN under TransSpec.WrapSigned
+		return fmt.Sprintf("(swrap %d %s)", g.bits, term)
 	}
 	return term
 }
@@ -284,6 +303,9 @@ func (c *fctx) expr(e ast.Expr, en *env, k func(string) string) string {
 	case *ast.Ident:
 		if x.Name == "nil" {
 			if _, ok := t.info.Uses[x].(*types.Nil); ok {
+				if c.nilErr[x] { // [ext:T20] the nil error (marked by its context: go/types leaves nil untyped)
+					return k("0")
+				}
 				return k("[]")
 			}
 		}
@@ -292,20 +314,33 @@ func (c *fctx) expr(e ast.Expr, en *env, k func(string) string) string {
 			o = t.info.Defs[x]
 		}
 		if v := en.lookup(o); v != nil {
-			if v.ty.k == kStruct && v.ty.ptr {
+			if (v.ty.k == kStruct && v.ty.ptr) || v.ty.k == kPlace {
 				t.fail(x, "pointer %s used as a value", x.Name)
 			}
 			return k(v.name)
 		}
+		if fn := t.funcValueRef(x); fn != nil { // a function of the package used as a value (trans_func.go)
+			return k(c.funcValueTerm(fn, x))
+		}
+		if s, ok := c.sentinel20(x, o); ok { // [ext:T20] package-level `var ErrX = errors.New("...")`, never assigned
+			c.sentinelClash15(x) // [ext:T15]
+			return k(s)
+		}
 		t.fail(x, "identifier %s (not a local variable, parameter or constant)", x.Name)
 	case *ast.SelectorExpr:
 		sel := t.info.Selections[x]
+		if s, ok := c.foreign15(x); ok { // [ext:T15] hex.ErrLength: a sentinel of an imported package
+			return k(s)
+		}
 		if sel == nil || sel.Kind() != types.FieldVal {
 			t.fail(x, "selector %s", x.Sel.Name)
 		}
+		if s, ok := c.seqSelector(x, en, k); ok { // [seq] h.f, s[i].f
+			return s
+		}
 		v := c.structVar(x.X, en)
 		t.exprType(x)
-		return k(fmt.Sprintf("(%s_%s %s)", v.ty.st.name, x.Sel.Name, v.name))
+		return k(fmt.Sprintf("(%s_%s %s)", v.ty.st.name, v.ty.st.coqField(x.Sel.Name), v.name)) // [stable]
 	case *ast.UnaryExpr:
 		g := t.exprType(x)
 		switch x.Op {
@@ -322,22 +357,27 @@ func (c *fctx) expr(e ast.Expr, en *env, k func(string) string) string {
 	case *ast.BinaryExpr:
 		return c.binary(x, en, k)
 	case *ast.IndexExpr:
-		if t.exprType(x.X).k != kSlice {
-			t.fail(x, "index expression on a non-slice")
+		if id, ok := ast.Unparen(x.X).(*ast.Ident); ok { // f[T] used as a value (trans_func.go)
+			if fn := t.funcValueRef(id); fn != nil {
+				return k(c.funcValueTerm(fn, x))
+			}
+		}
+		if g := t.exprType(x.X); g.k != kSlice || g.elem != nil { // [seq] a whole struct element is not a value
+			t.fail(x, "index expression on a non-slice (or a struct element used as a value)")
 		}
 		t.exprType(x)
 		return c.expr(x.X, en, func(a string) string {
 			return c.expr(x.Index, en, func(i string) string {
 				v := c.fresh("v")
-				return fmt.Sprintf("do %s <- m_get %s %s;;\n%s", v, a, i, k(v))
+				return fmt.Sprintf("do %s <- %s %s %s;;\n%s", v, getFn08(t.exprType(x.X)), a, i, k(v)) // [ext:T08] m_getA on [][]byte
 			})
 		})
 	case *ast.SliceExpr:
 		if x.Slice3 {
 			t.fail(x, "3-index slice expression")
 		}
-		if t.exprType(x.X).k != kSlice {
-			t.fail(x, "slice expression on a non-slice")
+		if g := t.exprType(x.X); g.k != kSlice || g.elem != nil || g.nest { // [ext:T08] nest
+			t.fail(x, "slice expression on a non-slice (or on a slice of structs)")
 		}
 		return c.expr(x.X, en, func(a string) string {
 			lo := func(k2 func(string) string) string {
@@ -359,6 +399,13 @@ func (c *fctx) expr(e ast.Expr, en *env, k func(string) string) string {
 				})
 			})
 		})
+	case *ast.CompositeLit: // [ext:T08] []byte{a, b}; [BitsCode] S{f: e, …} of a translated struct
+		if tv, ok := t.info.Types[x]; ok && tv.Type != nil {
+			if _, isStruct := tv.Type.Underlying().(*types.Struct); isStruct {
+				return c.structLit(x, en, k)
+			}
+		}
+		return c.complit08(x, en, k)
 	case *ast.CallExpr:
 		return c.call(x, en, func(vs []string) string {
 			if len(vs) != 1 {
@@ -366,8 +413,6 @@ func (c *fctx) expr(e ast.Expr, en *env, k func(string) string) string {
 			}
 			return k(vs[0])
 		})
-	case *ast.CompositeLit: // [BitsCode]
-		return c.structLit(x, en, k)
 	}
 	t.fail(e, "expression %s", nodeDesc(e))
 	return ""
@@ -395,6 +440,9 @@ func (c *fctx) binary(x *ast.BinaryExpr, en *env, k func(string) string) string 
 			return fmt.Sprintf("do %s <- (if %s then Ret true else (\n%s\n));;\n%s", v, a, rhs, k(v))
 		})
 	}
+	c.markNil20(x.X, x.Y) // [ext:T20] err == nil
+	c.errCmp15(x)         // [ext:T15] errors built by fmt.Errorf compare with nil / sentinels only
+	c.markNil20(x.Y, x.X)
 	return c.expr(x.X, en, func(a string) string {
 		return c.expr(x.Y, en, func(b string) string {
 			if r, ok := c.arith(x.Op, g, a, b, x.Y, k); ok {
@@ -403,6 +451,9 @@ func (c *fctx) binary(x *ast.BinaryExpr, en *env, k func(string) string) string 
 			bin := func(op string) string { return "(" + a + " " + op + " " + b + ")" }
 			fn := func(f string) string { return "(" + f + " " + a + " " + b + ")" }
 			og := t.exprType(x.X)
+			if c.isNilErr20(x.X) { // [ext:T20]
+				og = gtype{k: kErr}
+			}
 			if og.k == kBool {
 				switch x.Op {
 				case token.EQL:
@@ -410,6 +461,11 @@ func (c *fctx) binary(x *ast.BinaryExpr, en *env, k func(string) string) string 
 				case token.NEQ:
 					return k(fn("xorb"))
 				}
+			} else if og.k == kErr && (x.Op == token.EQL || x.Op == token.NEQ) { // [ext:T20] err == nil, err != ErrX
+				if x.Op == token.EQL {
+					return k(bin("=?"))
+				}
+				return k("(negb " + bin("=?") + ")")
 			} else if og.k == kInt || og.k == kUint || og.k == kElem {
 				switch x.Op {
 				case token.EQL:
@@ -451,10 +507,17 @@ func (c *fctx) arith(op token.Token, g gtype, a, b string, y ast.Expr, k func(st
 		if op == token.REM {
 			pf, mf = "Z.rem", "m_rem"
 		}
+		signedQuo := op == token.QUO && g.k == kInt && g.bits > 0 // [ext:T20] MinIntN / -1 wraps
 		if v, ok := c.constInt(y); ok && constant.Sign(v) != 0 {
+			if signedQuo && constant.Compare(v, token.EQL, constant.MakeInt64(-1)) {
+				return k(c.wrapIf(g, fn(pf))), true
+			}
 			return k(fn(pf)), true
 		}
 		v := c.fresh("v")
+		if signedQuo {
+			return fmt.Sprintf("do %s <- %s %s %s;;\n%s", v, mf, a, b, k(c.wrapIf(g, v))), true
+		}
 		return fmt.Sprintf("do %s <- %s %s %s;;\n%s", v, mf, a, b, k(v)), true
 	case token.AND:
 		return k(fn("Z.land")), true
@@ -512,19 +575,26 @@ func (c *fctx) call(x *ast.CallExpr, en *env, k func([]string) string) string {
 			t.fail(x, "conversion")
 		}
 		to, from := t.exprType(x), t.exprType(x.Args[0])
+		if to.str || from.str { // [ext:T20] string <-> []byte, string(byte)
+			return c.strConv20(x, to, from, en, k)
+		}
 		if !((to.k == kInt || to.k == kUint) && (from.k == kInt || from.k == kUint)) && !(to.k == from.k && to.k != kStruct) {
 			t.fail(x, "conversion from %s to %s", t.info.Types[x.Args[0]].Type, t.info.Types[x].Type)
 		}
-		if to.k == kInt && from.k == kUint && from.bits == 64 && !c.below63(x.Args[0]) {
+		if to.k == kInt && to.bits == 0 && from.k == kUint && from.bits == 64 && !c.below63(x.Args[0]) {
 			t.fail(x, "conversion of a 64-bit unsigned value to a signed integer (overflow is not modelled)")
 		}
 		return c.expr(x.Args[0], en, func(a string) string {
 			if to.k == kUint && !(from.k == kUint && from.bits <= to.bits) {
 				return k([]string{c.wrapIf(to, a)})
 			}
+			if to.k == kInt && to.bits > 0 && signedConvWraps20(to, from) { // [ext:T20]
+				return k([]string{c.wrapIf(to, a)})
+			}
 			return k([]string{a})
 		})
 	}
+	c.refuseNested08(x, c.builtin(x)) // [ext:T08] append / copy / make on [][]byte
 	switch b := c.builtin(x); b {
 	case "len", "cap":
 		if t.exprType(x.Args[0]).k != kSlice {
@@ -533,7 +603,8 @@ func (c *fctx) call(x *ast.CallExpr, en *env, k func([]string) string) string {
 		if b == "cap" && c.sliceKey(x.Args[0], en) == "" {
 			t.fail(x, "cap of something that is not a variable or a field (capacity is modelled as the length)")
 		}
-		return c.expr(x.Args[0], en, func(a string) string { return k([]string{"(zlen " + a + ")"}) })
+		lf := lenFn(t.exprType(x.Args[0])) // [seq] zlenA for slices of structs
+		return c.expr(x.Args[0], en, func(a string) string { return k([]string{"(" + lf + " " + a + ")"}) })
 	case "min", "max":
 		if g := t.exprType(x); g.k != kInt && g.k != kUint {
 			t.fail(x, "%s on non-integers", b)
@@ -551,14 +622,20 @@ func (c *fctx) call(x *ast.CallExpr, en *env, k func([]string) string) string {
 		}
 		return c.args(x.Args[1:], en, func(vs []string) string {
 			v := c.fresh("v")
+			if g := t.exprType(x); g.elem != nil { // [seq] make([]S, n)
+				if len(vs) != 1 {
+					t.fail(x, "make of a slice of structs with a capacity")
+				}
+				return fmt.Sprintf("do %s <- m_makeA zero_%s %s;;\n%s", v, g.elem.name, vs[0], k([]string{v}))
+			}
 			if len(vs) == 2 {
 				return fmt.Sprintf("do %s <- m_make_cap %s %s;;\n%s", v, vs[0], vs[1], k([]string{v}))
 			}
 			return fmt.Sprintf("do %s <- m_make %s;;\n%s", v, vs[0], k([]string{v}))
 		})
 	case "append":
-		if t.exprType(x).k != kSlice {
-			t.fail(x, "append on a non-slice")
+		if g := t.exprType(x); g.k != kSlice || g.elem != nil {
+			t.fail(x, "append on a non-slice (or on a slice of structs)")
 		}
 		return c.args(x.Args, en, func(vs []string) string {
 			if x.Ellipsis != token.NoPos {
@@ -583,63 +660,113 @@ func (c *fctx) call(x *ast.CallExpr, en *env, k func([]string) string) string {
 	if n := t.onesCountCall(x); n != 0 { // [BitsCode] math/bits.OnesCountN
 		return c.args(x.Args, en, func(vs []string) string { return k([]string{fmt.Sprintf("(ones_count %d %s)", n, vs[0])}) })
 	}
+	if t.funcValueCall(x) != nil { // a function value (trans_func.go)
+		return c.callFuncValue(x, en, k)
+	}
+	if s, ok := c.seqCall(x, en, k); ok { // [seq] sync/atomic, runtime.Gosched
+		return s
+	}
+	if s, ok := c.call15(x, en, k); ok { // [ext:T15] fmt.Errorf / errors.New as an error kind; hex.EncodedLen / DecodedLen
+		return s
+	}
+	if s, ok := c.foreignCall08(x, en, k); ok { // [ext:T08] TransSpec.Foreign, errors.New / fmt.Errorf
+		return s
+	}
 	fn, recv := t.calleeOf(x)
 	if fn == nil {
 		t.fail(x, "call of %s (only functions and methods of the translated package, builtins and conversions)", nodeDesc(ast.Unparen(x.Fun)))
 	}
 	fi := t.funcFor(fn, x)
+	if t.seq.timedTail[fi.goName] { // [seq]
+		t.fail(x, "call of %s, which is translated with a timed tail", fi.goName)
+	}
 	fuel := ""
 	if fi.loops {
 		fuel = " fuel"
 	}
 	var rv *varInfo
+	recvArg := false // [ext:T20] a value receiver of a named integer type is an ordinary first argument
 	if fi.recv != nil {
 		if recv == nil {
 			t.fail(x, "method expression")
 		}
-		rv = c.structVar(recv, en)
-		if fi.writes {
-			for key := range en.shared {
-				if strings.HasPrefix(key, rv.name+".") {
-					t.fail(x, "call of %s, which writes its receiver, while %s may share its array with another variable", fi.goName, key)
+		if fi.recvT.k != kStruct {
+			recvArg = true
+		} else {
+			rv = c.structVar(recv, en)
+			if fi.writes {
+				c.checkNoLivePlace(en, x, func(k string) bool { return strings.HasPrefix(k, rv.name+".") }, "call of "+fi.goName) // [seq]
+				for key := range en.shared {
+					if strings.HasPrefix(key, rv.name+".") {
+						t.fail(x, "call of %s, which writes its receiver, while %s may share its array with another variable", fi.goName, key)
+					}
 				}
 			}
 		}
+	} else if fi.ignoredRecv { // [ext:T20] the callee never mentions its receiver; its expression must be a plain variable
+		if _, ok := ast.Unparen(recv).(*ast.Ident); !ok {
+			t.fail(x, "call of %s through a receiver expression that is not a variable", fi.goName)
+		}
 	}
-	return c.args(x.Args, en, func(vs []string) string {
-		app := fi.name + fuel
+	emit := func(rterm string, vs []string) string {
+		app := fi.name + fuel + c.callee08(fi, x) // [ext:T08] ext'
 		if rv != nil {
 			app += " " + rv.name
 		}
+		if rterm != "" {
+			app += " " + rterm
+		}
+		for _, g := range t.ordered20(fi.greads) { // [ext:T20] package-level state is passed explicitly
+			app += " " + c.globalName20(g, en, x)
+		}
 		for _, v := range vs {
 			app += " " + v
+		}
+		if back := t.writtenArgs(x); len(back) > 0 { // in-out slice arguments come back after the receiver (trans_func.go)
+			rn := ""
+			if rv != nil && fi.writes {
+				rn = rv.name
+			}
+			return c.bindCall(app, rn, back, len(fi.results), en, x, k)
 		}
 		var rs []string
 		for range fi.results {
 			rs = append(rs, c.fresh("v"))
 		}
-		pat := tuple(rs)
+		var parts []string
 		if rv != nil && fi.writes {
-			if len(rs) == 0 {
-				pat = rv.name
-			} else {
-				pat = "(" + rv.name + ", " + pat + ")"
-			}
-		} else if len(rs) == 0 {
+			parts = append(parts, rv.name)
+		}
+		for _, g := range t.ordered20(fi.gwrites) {
+			parts = append(parts, c.globalName20(g, en, x))
+		}
+		parts = append(parts, c.outArgs15(fi, x, en)...) // [ext:T15] the slices written in place come back
+		if len(rs) > 0 {
+			parts = append(parts, tuple(rs))
+		}
+		pat := nestPair(parts)
+		if len(parts) == 0 {
 			pat = "_"
 		}
 		if strings.HasPrefix(pat, "(") {
 			pat = "'" + pat
 		}
 		return fmt.Sprintf("do %s <- %s;;\n%s", pat, app, k(rs))
-	})
+	}
+	if recvArg {
+		return c.expr(recv, en, func(r string) string {
+			return c.args(x.Args, en, func(vs []string) string { return emit(r, vs) })
+		})
+	}
+	return c.args(x.Args, en, func(vs []string) string { return emit("", vs) })
 }
 
 // copyCall: copy(dst, src) / copy(dst[a:b], src) with dst a variable or a field; rebinding dst.
 func (c *fctx) copyCall(x *ast.CallExpr, en *env, k func([]string) string) string {
 	t := c.t
-	if len(x.Args) != 2 || t.exprType(x.Args[0]).k != kSlice || t.exprType(x.Args[1]).k != kSlice {
-		t.fail(x, "copy on non-slices")
+	if len(x.Args) != 2 || t.exprType(x.Args[0]).k != kSlice || t.exprType(x.Args[1]).k != kSlice ||
+		t.exprType(x.Args[0]).elem != nil || t.exprType(x.Args[1]).elem != nil {
+		t.fail(x, "copy on non-slices (or on slices of structs)")
 	}
 	dst := ast.Unparen(x.Args[0])
 	var low, high ast.Expr
@@ -702,8 +829,8 @@ func (c *fctx) store(lhs ast.Expr, val string, en *env, k func() string) string 
 		if v == nil {
 			t.fail(x, "assignment to %s (not a local variable)", x.Name)
 		}
-		if v.ty.k == kStruct {
-			t.fail(x, "assignment of a whole struct to %s", x.Name)
+		if v.ty.k == kStruct || v.ty.k == kPlace {
+			t.fail(x, "assignment of a whole struct / pointer to %s", x.Name)
 		}
 		if v.name == val {
 			return k()
@@ -715,7 +842,7 @@ func (c *fctx) store(lhs ast.Expr, val string, en *env, k func() string) string 
 			t.fail(x, "assignment to selector %s", x.Sel.Name)
 		}
 		v := c.structVar(x.X, en)
-		return fmt.Sprintf("let %s := set_%s_%s %s %s in\n%s", v.name, v.ty.st.name, x.Sel.Name, v.name, val, k())
+		return fmt.Sprintf("let %s := set_%s_%s %s %s in\n%s", v.name, v.ty.st.name, v.ty.st.coqField(x.Sel.Name), v.name, val, k()) // [stable]
 	}
 	t.fail(lhs, "assignment to %s", nodeDesc(lhs))
 	return ""
